@@ -612,7 +612,7 @@ func CheckMerge(prop, tier string) int {
 			cases = sel
 		}
 		if tier == "thorough" {
-			loads = 60
+			loads = 24
 		}
 	}
 	var mu sync.Mutex
@@ -622,6 +622,11 @@ func CheckMerge(prop, tier string) int {
 	workers := runtime.NumCPU()
 	if prop == "C09" {
 		workers = 1
+		if tier == "thorough" {
+			// several trees at a time; every worker keeps changing GOMAXPROCS (process-wide), which only adds
+			// scheduling noise to the others
+			workers = 6
+		}
 	}
 	ch := make(chan mCase, 64)
 	var wg sync.WaitGroup
